@@ -445,10 +445,10 @@ def _senses(prog, rep):
     assigns = local_assignments(ec.node)
     rhs = [v for v in assigns.get("rhs", [])]
     ok = bool(rhs) and isinstance(rhs[0], ast.UnaryOp) and isinstance(rhs[0].op, ast.USub) and "extract_constant_term(constraint.expr)" in src(rhs[0])
-    rep.ob("R05.4", "extract_constraints", ok, "rhs = -constant term (expr = A.x - b)" if ok else "the right-hand side is not the negated constant term of the constraint expression", loc=ec.loc, detail="rhs-sign")
+    rep.pin('extract_constraints', "R05.4", "extract_constraints", ok, "rhs = -constant term (expr = A.x - b)" if ok else "the right-hand side is not the negated constant term of the constraint expression", loc=ec.loc, detail="rhs-sign")
     row = assigns.get("row", [])
     ok = bool(row) and "extract_all_linear_coefficients(constraint.expr, var_index, n)" in src(row[0])
-    rep.ob("R05.4", "extract_constraints", ok, "row = coefficients of the constraint expression in the column map" if ok else "the row is not extracted from constraint.expr with the column map", loc=ec.loc, detail="row")
+    rep.pin('extract_constraints', "R05.4", "extract_constraints", ok, "row = coefficients of the constraint expression in the column map" if ok else "the row is not extracted from constraint.expr with the column map", loc=ec.loc, detail="row")
     want = {"==": ("eq_rows", "row", "eq_rhs", "rhs"), "<=": ("ub_rows", "row", "ub_rhs", "rhs"), ">=": ("ub_rows", "-row", "ub_rhs", "-rhs")}
     seen = set()
     for n in walk_local(ec.node):
@@ -460,15 +460,15 @@ def _senses(prog, rep):
                 apps = [(src(c.func.value), src(c.args[0])) for c in calls(ast.Module(body=n.body, type_ignores=[])) if isinstance(c.func, ast.Attribute) and c.func.attr == "append"]
                 w = want.get(sense)
                 ok = w is not None and apps == [(w[0], w[1]), (w[2], w[3])]
-                rep.ob("R05.4", "extract_constraints", ok,
+                rep.pin('extract_constraints', "R05.4", "extract_constraints", ok,
                        f"{sense}: ({w[1]}, {w[3]}) appended to ({w[0]}, {w[2]})" if ok else
                        f"sense {sense!r} appends {apps}; expected {[(w[0], w[1]), (w[2], w[3])] if w else 'no such sense'}: the row enters the LP with the wrong sign or in the wrong block",
                        loc=f"{ec.module.rel}:{n.lineno}", detail=f"sense:{sense}")
     missing = {"==", "<=", ">="} - seen
-    rep.ob("R05.4", "extract_constraints", not missing, "all three senses are handled" if not missing else f"sense(s) {sorted(missing)} fall through silently: those constraints vanish from the LP", loc=ec.loc, detail="all-senses")
+    rep.pin('extract_constraints', "R05.4", "extract_constraints", not missing, "all three senses are handled" if not missing else f"sense(s) {sorted(missing)} fall through silently: those constraints vanish from the LP", loc=ec.loc, detail="all-senses")
     s = src(ec.node)
     blocks = "A_ub = np.array(ub_rows, dtype=np.float64) if ub_rows else None" in s and "b_ub = np.array(ub_rhs, dtype=np.float64) if ub_rhs else None" in s and "A_eq = np.array(eq_rows, dtype=np.float64) if eq_rows else None" in s and "b_eq = np.array(eq_rhs, dtype=np.float64) if eq_rhs else None" in s and "return (A_ub, b_ub, A_eq, b_eq)" in s
-    rep.ob("R05.4", "extract_constraints", blocks, "matrices are assembled from their own row/rhs lists and returned in the order (A_ub, b_ub, A_eq, b_eq)" if blocks else "the row/rhs lists are not assembled into (A_ub, b_ub, A_eq, b_eq) one-to-one", loc=ec.loc, detail="assembly")
+    rep.pin('extract_constraints', "R05.4", "extract_constraints", blocks, "matrices are assembled from their own row/rhs lists and returned in the order (A_ub, b_ub, A_eq, b_eq)" if blocks else "the row/rhs lists are not assembled into (A_ub, b_ub, A_eq, b_eq) one-to-one", loc=ec.loc, detail="assembly")
 
 
 def _alignment(prog, rep):
@@ -476,15 +476,15 @@ def _alignment(prog, rep):
     eo = L.methods.get("extract_objective")
     s = src(eo.node)
     ok = "variables = problem.variables" in s and "var_index = {var.name: i for i, var in enumerate(variables)}" in s and "c = extract_all_linear_coefficients(problem.objective, var_index, n)" in s and "return (c, sense, variables)" in s
-    rep.ob("R05.5", "extract_objective", ok, "columns = positions in problem.variables; the same list is returned" if ok else "the cost vector's column map is not {v.name: i} over problem.variables, or another list is returned", loc=eo.loc, detail="columns")
+    rep.pin('LP alignment', "R05.5", "extract_objective", ok, "columns = positions in problem.variables; the same list is returned" if ok else "the cost vector's column map is not {v.name: i} over problem.variables, or another list is returned", loc=eo.loc, detail="columns")
     ec = L.methods.get("extract_constraints")
     ok = "var_index = {var.name: i for i, var in enumerate(variables)}" in src(ec.node) and "n = len(variables)" in src(ec.node)
-    rep.ob("R05.5", "extract_constraints", ok, "rows use the column map of the list passed in" if ok else "constraint rows are not built over the variable list passed in", loc=ec.loc, detail="columns")
+    rep.pin('LP alignment', "R05.5", "extract_constraints", ok, "rows use the column map of the list passed in" if ok else "constraint rows are not built over the variable list passed in", loc=ec.loc, detail="columns")
     eb = L.methods.get("extract_bounds")
     sb = src(eb.node)
     ok = "for var in variables" in sb and "bounds.append((lb, ub))" in sb and "lb = var.lb" in sb and "ub = var.ub" in sb
-    rep.ob("R05.5", "extract_bounds", ok, "bounds[i] = (lb, ub) of variables[i]" if ok else "bounds are not (var.lb, var.ub) per variable in order", loc=eb.loc, detail="bounds")
+    rep.pin('LP alignment', "R05.5", "extract_bounds", ok, "bounds[i] = (lb, ub) of variables[i]" if ok else "bounds are not (var.lb, var.ub) per variable in order", loc=eb.loc, detail="bounds")
     ex = L.methods.get("extract")
     se = src(ex.node)
     ok = all(f"{k}={k}" in se for k in ("c", "sense", "A_ub", "b_ub", "A_eq", "b_eq", "bounds"))
-    rep.ob("R05.5", "extract", ok, "LPData fields are filled from the values of the same name" if ok else "LPData fields are not filled one-to-one from the extracted values", loc=ex.loc, detail="fields")
+    rep.pin('LP alignment', "R05.5", "extract", ok, "LPData fields are filled from the values of the same name" if ok else "LPData fields are not filled one-to-one from the extracted values", loc=ex.loc, detail="fields")
